@@ -697,7 +697,7 @@ def link_duos(cases):
 
 
 # ----------------------------------------------------------------------------- running
-def run_firmware(cases, per_sketch):
+def run_firmware(cases, per_sketch, san=False):
     """-> {case index: segments or ('error', text)}.  Plain cases are batched in setup(); cases with "passes"
     go to sketches of their own kind (calls inside `while True:`); a case with "duo" = (partner index, order)
     is emitted together with its partner, calls interleaved."""
@@ -729,7 +729,7 @@ def run_firmware(cases, per_sketch):
                 out[cid] = ("error", f"transpile: {t.get('exc')}: {t.get('msg')}")
         else:
             runs.append((s, {"cpp": t["cpp"], "input": inp, "loops": s.passes, "run_timeout": 120}))
-    res = fw.run_sketches([j for _, j in runs])
+    res = fw.run_sketches([j for _, j in runs], san=san)
     for (s, _), r in zip(runs, res):
         if not r["compiled"] or r["rc"] != 0:
             for cid in s.ids:
@@ -926,6 +926,26 @@ def run(ctx: C.Ctx):
             dist["tones"] += sum(1 for e in evs if e[0] == "T")
             dist["delays"] += sum(1 for e in evs if e[0] == "D")
         dist["cases_sounding_at_end"] += segs[-1][1][0]
+    # thorough tier: a sample of the same cases again with clang++ -fsanitize=address,undefined; the emitted
+    # code must run without a sanitizer report (float -> unsigned conversions, array indexing in melody())
+    # and produce the same trace
+    n_san = 0
+    if thorough:
+        import shutil as _sh
+        if _sh.which("clang++"):
+            pick = [i for i, c in enumerate(cases) if "duo_id" not in c][::7][:600]
+            sub = [plain(cases[i], **({"passes": cases[i]["passes"], "body": cases[i]["body"]} if cases[i].get("passes") else {}))
+                   for i in pick]
+            sres, _ = run_firmware(sub, 80, san=True)
+            for k, i in enumerate(pick):
+                a, b = fwres.get(i), sres.get(k)
+                if isinstance(a, tuple) or a is None:
+                    continue
+                n_san += 1
+                if isinstance(b, tuple) or b is None:
+                    ctx.disagree("sanitizer build (ASan+UBSan) of the emitted code fails or reports an error", cases[i], "clean run", b)
+                elif a != b:
+                    ctx.disagree("sanitizer build produces a different trace than the g++ build", cases[i], a, b)
     shrink_failures(ctx, spec)
     replay_findings(ctx, spec)
 
@@ -936,7 +956,7 @@ def run(ctx: C.Ctx):
         "rule": "call sequences on one buzzer: (1) every point of the boundary grids (play_tone f x d, beep f x (on,off) x times, sweep s x e x (d,steps), melody x tempo; quick tier cycles the inner product, thorough takes it in full) chained four per case, literal and run-time (analog_read-routed) arguments alternating; (2) all ordered pairs over a 29-call boundary alphabet in four literal/run-time routings; (3) seeded random sequences of length <= 8 with per-argument routing, omitted defaults, keyword/positional spellings and case variants of melody names. Getters are printed before the first and after every call. Non-trivial = contains a call other than stop; distinct by (default, calls).",
         "samples": [cases[0], cases[len(cases) // 2], cases[-1]],
         "distribution": {**dist, "cases": len(cases), "calls_compared": n_calls, "sketches": n_sketches,
-                         "cases_clean": n_ok, "outside_guard_not_generated": n_out_guard,
+                         "cases_clean": n_ok, "cases_rerun_under_sanitizers": n_san, "outside_guard_not_generated": n_out_guard,
                          "float32_vs_exact_dropped": n_inexact, "melody_name_candidates": n_names, "melody_names_accepted": n_acc},
         "exhaustive": False,
         "guard": "durations/on_ms/off_ms >= 0 (negative: F-C16-negative-runtime-duration, float->unsigned UB); sweep tone count / first / last judged only for steps >= 1 (F-C16-sweep-steps-clamped; the calls are still generated and compared with the model); no beep with trunc(times) < 1 while a tone is left running (F-C16-beep-zero-keeps-tone); integer outputs on which float32 and exact-rational arithmetic differ are not generated (count in distribution.float32_vs_exact_dropped)",
